@@ -484,16 +484,137 @@ func PoolTypestate(p *load.Program, rel string, res *report.RuleResult) {
 		}
 	}
 
+	// the form-specific proof goes into a result of its own: what it leaves open because it does not recognise
+	// the form may be decided by evaluation (poolspec.go); what it proves or refutes in a form it knows stands
+	form := report.NewResult("pool-typestate")
+	recognised := true
 	if pa.isFreeTail(get) {
 		// the other representation of the same pool: the not yet handed out rest of the block instead of an offset
-		pa.checkFreeTail(res, key, ctor, get)
-		return
+		pa.checkFreeTail(form, key, ctor, get)
+	} else {
+		recognised = pa.offsetForm(ctor, get)
+		// ---- constructor: returns &Pool{block: make([]T, n)} with n the parameter, off zero
+		pa.checkCtor(form, key, ctor)
+		// ---- Get: symbolic execution over the zone domain
+		pa.checkGet(form, key, get)
 	}
-	// ---- constructor: returns &Pool{block: make([]T, n)} with n the parameter, off zero
-	pa.checkCtor(res, key, ctor)
+	open := 0
+	for _, o := range form.Obls {
+		if o.Status != report.Discharged {
+			open++
+		}
+	}
+	probs, scenarios, decided := poolByEval(pk, ctor, get, poolSizes(p, pk))
+	if decided {
+		res.Count("requests-evaluated", scenarios)
+		res.Check(len(probs) == 0, key+"/evaluated", p.Pos(get.Pos()), "Pool.Get",
+			fmt.Sprintf("on %d requests (block sizes 1-8, 16 and the sizes the constructor is called with; 2*size+3 requests each, across two block boundaries) every result is a zeroed element no earlier request returned", scenarios),
+			strings.Join(probs, "; "))
+	}
+	if open > 0 && decided && len(probs) == 0 {
+		// what the proof could not interpret (undecided) is decided by the evaluation; what it refutes stands,
+		// unless the pool is in neither exact form - then its complaints are about the form, not about what the
+		// pool does
+		for i := range form.Obls {
+			if form.Obls[i].Status == report.Undecided || (form.Obls[i].Status == report.Violated && !recognised) {
+				form.Obls[i].Detail = "the pool is in neither form the typestate proof reads (" + form.Obls[i].Detail + "); decided for the block sizes and request counts of " + key + "/evaluated only"
+				form.Obls[i].Status = report.Discharged
+			}
+		}
+	}
+	res.Obls = append(res.Obls, form.Obls...)
+	for k, v := range form.Instances {
+		res.Instances[k] += v
+	}
+}
 
-	// ---- Get: symbolic execution over the zone domain
-	pa.checkGet(res, key, get)
+// offsetForm: Get is written over an offset that counts up from zero - the form checkCtor/checkGet prove:
+// the int field is only ever incremented or set to zero, and the constructor does not assign it.
+func (pa *poolAnalyser) offsetForm(ctor, get *ast.FuncDecl) bool {
+	ok := true
+	isOff := func(e ast.Expr) bool {
+		f, is := pa.recvField(e)
+		return is && f == pa.offF
+	}
+	ast.Inspect(get.Body, func(x ast.Node) bool {
+		switch y := x.(type) {
+		case *ast.IncDecStmt:
+			if isOff(y.X) && y.Tok != token.INC {
+				ok = false
+			}
+		case *ast.AssignStmt:
+			for i, l := range y.Lhs {
+				if !isOff(l) {
+					continue
+				}
+				if y.Tok != token.ASSIGN || i >= len(y.Rhs) {
+					if y.Tok != token.ADD_ASSIGN {
+						ok = false
+					}
+					continue
+				}
+				if tv := pa.info().Types[y.Rhs[i]]; tv.Value == nil || tv.Value.ExactString() != "0" {
+					ok = false
+				}
+			}
+		}
+		return true
+	})
+	ast.Inspect(ctor.Body, func(x ast.Node) bool {
+		switch y := x.(type) {
+		case *ast.AssignStmt:
+			for _, l := range y.Lhs {
+				if se, is := unparen(l).(*ast.SelectorExpr); is && se.Sel.Name == pa.offF {
+					ok = false
+				}
+			}
+		case *ast.KeyValueExpr:
+			if id, is := y.Key.(*ast.Ident); is && id.Name == pa.offF {
+				if tv := pa.info().Types[y.Value]; tv.Value == nil || tv.Value.ExactString() != "0" {
+					ok = false
+				}
+			}
+		}
+		return true
+	})
+	return ok
+}
+
+// poolSizes: the constant block sizes the module's calls of the pool's constructor pass.
+func poolSizes(p *load.Program, pk *packages.Package) []int {
+	var out []int
+	ctor := pk.Types.Scope().Lookup("NewPool")
+	if ctor == nil {
+		return nil
+	}
+	for _, q := range p.All {
+		for _, f := range q.Syntax {
+			ast.Inspect(f, func(x ast.Node) bool {
+				call, ok := x.(*ast.CallExpr)
+				if !ok || len(call.Args) != 1 {
+					return true
+				}
+				var id *ast.Ident
+				switch fn := call.Fun.(type) {
+				case *ast.Ident:
+					id = fn
+				case *ast.SelectorExpr:
+					id = fn.Sel
+				}
+				if id == nil || q.TypesInfo.Uses[id] != ctor {
+					return true
+				}
+				if tv := q.TypesInfo.Types[call.Args[0]]; tv.Value != nil {
+					n := 0
+					if _, err := fmt.Sscan(tv.Value.ExactString(), &n); err == nil {
+						out = append(out, n)
+					}
+				}
+				return true
+			})
+		}
+	}
+	return out
 }
 
 func isFieldOf(v *types.Var, st *types.Struct) bool {
